@@ -12,3 +12,4 @@ register_driver('peers.PeerManager.on_add_peer.', 'peers_add_peer.py')
 register_driver('peer.Peer.', 'peers_subscribe.py')
 register_driver('peers.PeerManager._get_recent_good_peers.', 'peers_subscribe.py')
 register_driver('peers.PeerManager.on_peers_subscribe.', 'peers_subscribe.py')
+register_driver('daemon.Daemon.', 'daemon_send.py')
